@@ -369,16 +369,21 @@ def write_history(files, m, scratch):
     path = os.path.join(scratch, NAME)
     for f in m.files:
         plain = path + f['suffix']
-        with files.logger(plain) as l:
-            for w in f['writes']:
-                if w[0] == 'write':
-                    l.write(w[2], now=w[1] / 1000.0, serial=w[3])
-                elif w[0] == 'comment':
-                    l.comment(w[1])
-                else:
-                    l._append(w[1], encoding='latin-1')
-            if l.error:
-                raise common.HarnessError('logger could not write %s' % plain)
+        # the file is written in `sessions` consecutive logger sessions (a logger re-opened on an existing file appends to it)
+        nses = max(1, min(getattr(m, 'sessions', 1), len(f['writes'])))
+        per = -(-len(f['writes']) // nses)
+        enc = getattr(m, 'enc', None)
+        for si in range(nses):
+            with files.logger(plain) as l:
+                for w in f['writes'][si * per:(si + 1) * per]:
+                    if w[0] == 'write':
+                        l.write(w[2], now=w[1] / 1000.0, serial=w[3], **({'encoding': enc} if enc else {}))
+                    elif w[0] == 'comment':
+                        l.comment(w[1], **({'encoding': enc} if enc else {}))
+                    else:
+                        l._append(w[1], encoding='latin-1')
+                if l.error:
+                    raise common.HarnessError('logger could not write %s' % plain)
         store = f['store']
         if store != 'plain':
             ext = store.split('+')[-1]
@@ -403,6 +408,8 @@ def execute(case, m):
     tr = {'loads': [], 'delivered': [], 'opens': [], 'releases': [], 'exc': shim.seen, 'awaited': set(),
           'after_complete': 0}
     try:
+        m.sessions = case['settings'].get('sessions', 1)
+        m.enc = case['settings'].get('enc')
         path = write_history(files, m, scratch)
         files.timer = times.timer = clock
         files.traceback = shim
@@ -437,6 +444,8 @@ def execute(case, m):
                 kwl['limit'] = limit
             if up is not None:
                 kwl['upcoming'] = up
+            if m.enc:
+                kwl['encoding'] = m.enc
             ld.vp_opens_this_load = 0
             clock.calls, clock.bound = 0, step_bound
             try:
@@ -823,6 +832,11 @@ def classify(case, m, tr):
         cl.append('line:' + ft)
     if any(w[0] == 'comment' or (w[0] == 'raw' and w[1] == '\n') for f in m.files for w in f['writes']):
         cl.append('line:comment_or_blank')
+    if case['settings'].get('sessions', 1) > 1:
+        cl.append('written_in_several_logger_sessions')
+    if case['settings'].get('enc'):
+        cl.append('encoding:' + case['settings']['enc'] + (':non_ascii_head_comment' if any(
+            f['writes'] and f['writes'][0][0] == 'comment' and any(ord(c) > 127 for c in f['writes'][0][1]) for f in m.files) else ''))
     if m.first_unparsable is not None:
         cl.append('unparsable_line_in_replayed_range')
     h0 = m.h0
@@ -900,6 +914,9 @@ def replay_cases(draw):
     files = []
     t = 0
     times, firsts = [], []
+    # a non-default text encoding (comments may then hold non-ASCII text; each file may be headed by one, as historize.py writes them)
+    enc = draw(st.sampled_from([None, None, 'utf-8'])) if deco in ('none', 'comments') else None
+    sessions = draw(st.sampled_from([1, 1, 2, 3]))
     for fi in range(nfiles):
         nrec = draw(st.integers(1, 2 if many else 8))
         flat = draw(st.integers(0, 2)) == 2
@@ -910,6 +927,8 @@ def replay_cases(draw):
             else:
                 gap = 0 if flat else draw(st.sampled_from(INNER_GAPS))
             t += gap
+            if enc and ri == 0 and draw(st.booleans()):
+                lines.append({'k': 'comment', 's': draw(st.sampled_from(['Started recording', 'Aufzeichnung l\u00e4uft \u2014 \u00fc', 'd\u00e9marr\u00e9']))})
             if deco != 'none' and draw(st.integers(0, 9)) == 0:
                 if draw(st.booleans()):
                     lines.append({'k': 'comment', 's': draw(st.sampled_from(['rotated', 'note: 2014-04-01 00:00:00.000', '']))})
@@ -958,6 +977,10 @@ def replay_cases(draw):
     if settings['basis'] == 'explicit':
         settings['boff'] = draw(st.sampled_from([0, 0, 0.5, -0.5]))
     settings['lead'] = draw(st.sampled_from([0, 0, 0.5, 2.0]))
+    if enc:
+        settings['enc'] = enc
+    if sessions > 1:
+        settings['sessions'] = sessions
     if draw(st.integers(0, 5)) == 0:
         dl = draw(st.sampled_from(times)) + draw(st.sampled_from([0, 500]))
         hist = h0 - ((-settings.get('boff', 0)) if settings['basis'] == 'explicit' else settings['lead']) * factor * 1000
